@@ -409,6 +409,15 @@ def gen_C09(c, rng, tier):
             for u in us:
                 c.add(t, 'select', [toks(fmt, ws), fmt.tok(u)], classes=['long_weight_vector', 'boundary' if u in cum else 'zero' if u == 0 else 'other', 'has_zero_weight'],
                       nontrivial=True)
+        # thousands of equal weights (what every run starts with): every cumulative boundary with its two lower neighbours
+        for n in [rng.choice(HUGE_COUNTS[:3])] + (HUGE_COUNTS[:3] if tier == 'thorough' else []):
+            ws = [Fraction(1)] * n
+            cum = oracles.cumulative(fmt, ws)
+            us = []
+            for s in cum[:-1]:
+                p1 = fmt.pred(s); p2 = fmt.pred(p1)
+                us += [v for v in (p2, p1, s) if isnum(v) and 0 <= v < 1 and (v * 2 ** 64).denominator == 1]
+            c.add(t, 'selects', [toks(fmt, ws), toks(fmt, us)], classes=['long_weight_vector', 'all_boundaries', 'equal_weights'], nontrivial=True)
     gen_C09_runs(c, rng, tier)
 
 def gen_C09_runs(c, rng, tier):
